@@ -43,4 +43,20 @@ ParamsFlat(f, vs, W) == LowerFlatSeq(f.ps, vs, W, 0, 1)
 ParamsMem(f, vs, W) == Store(ParamsRecord(f), vs, W, 0)
 ResultFlat(f, rv, W) == IF IsNone(f.r) THEN [vals |-> <<>>, blocks |-> <<>>] ELSE LowerFlat(f.r, rv, W, 0)
 ResultMem(f, rv, W) == IF IsNone(f.r) THEN [cells |-> <<>>, blocks |-> <<>>] ELSE Store(f.r, rv, W, 0)
+
+\* everything a host needs to take part in one synchronous call of f with arguments vs and result rv:
+\* `lower` = the guest imports f (canon lower), `lift` = the guest exports it (canon lift)
+CallEncoding(f, vs, rv, W) ==
+    LET pf == ParamsFlat(f, vs, W)
+        pm == ParamsMem(f, vs, W)
+        rf == ResultFlat(f, rv, W)
+        rm == ResultMem(f, rv, W)
+        common == [indirect |-> IndirectParams(f, W, MAX_FLAT_PARAMS), retptr |-> RetPtr(f, W),
+                   paramsFlat |-> pf.vals, paramsFlatBlocks |-> pf.blocks,
+                   paramsMem |-> pm.cells, paramsMemBlocks |-> pm.blocks,
+                   paramsSize |-> Size(ParamsRecord(f), W), paramsAlign |-> Align(ParamsRecord(f), W),
+                   resFlat |-> rf.vals, resFlatBlocks |-> rf.blocks,
+                   resMem |-> rm.cells, resMemBlocks |-> rm.blocks,
+                   resSize |-> IF IsNone(f.r) THEN 0 ELSE Size(f.r, W), resAlign |-> IF IsNone(f.r) THEN 1 ELSE Align(f.r, W)]
+    IN [lower |-> [sig |-> SyncSig(f, W, "lower")] @@ common, lift |-> [sig |-> SyncSig(f, W, "lift")] @@ common]
 =============================================================================
